@@ -159,3 +159,14 @@ R.contract(
     trusted=True,
     prop=["C10", "C06"],
 )
+
+# construction of an EMPTY set (the only form the library uses outside tests)
+R.contract(
+    "RangeSet.__init__",
+    params={"ranges": "list[range]"},
+    requires=["len(ranges) == 0"],
+    ensures=["len(RL(self)) == 0", "forall(lambda x: not self.gview[x])"],
+    loops={0: dict(invariant=["0 <= _i0 <= len(ranges)", "len(RL(self)) == 0"])},
+    ghost_exit={"self.gview": "amap(lambda x: False)", "self.gidx": "amap(lambda x: 0)"},
+    prop=["C10"],
+)
